@@ -110,20 +110,73 @@ func parseBool(b byte) (bool, error) {
 	return b != 0, nil
 }
 
-// memberMatches reports whether an element with the given identifier can be
-// the SEQUENCE/SET member declared with params: a member with a context tag is
-// recognised by its tag number, a member without one keeps its universal tag.
-func memberMatches(params fieldParameters, tal tagAndLen) bool {
-	if params.tagNumber == nil {
-		return tal.class == ClassUniversal
+// universalTag returns the universal tag an untagged value of type t is
+// encoded with; ok is false where the type alone does not decide it (the
+// alternatives of an untagged CHOICE, unsupported kinds). The "Value"/"List"
+// wrappers carry the tag of the type they wrap.
+func universalTag(t reflect.Type, params fieldParameters) (tag uint64, ok bool) {
+	for t.Kind() == reflect.Ptr {
+		t = t.Elem()
 	}
-	return tal.class == ClassContextSpecific && *params.tagNumber == tal.tagNumber
+	switch t {
+	case BitStringType:
+		return TagBitString, true
+	case OctetStringType:
+		return TagOctetString, true
+	case EnumeratedType:
+		return TagEnumerated, true
+	case NullType:
+		return TagNull, true
+	case ObjectIdentifierType:
+		return 0, false
+	}
+	switch t.Kind() {
+	case reflect.Bool:
+		return TagBoolean, true
+	case reflect.Int, reflect.Int32, reflect.Int64:
+		return TagInteger, true
+	case reflect.String:
+		return uint64(params.stringType), true
+	case reflect.Struct:
+		if t.NumField() > 0 {
+			switch t.Field(0).Name {
+			case "Value", "List":
+				return universalTag(t.Field(0).Type, params)
+			case "Present":
+				return 0, false
+			}
+		}
+		if params.set {
+			return TagSet, true
+		}
+		return TagSequence, true
+	case reflect.Slice:
+		if params.set {
+			return TagSet, true
+		}
+		return TagSequence, true
+	}
+	return 0, false
+}
+
+// memberMatches reports whether an element with the given identifier can be
+// the SEQUENCE/SET member of type t declared with params: a member with a
+// context tag is recognised by class and tag number, a member without one by
+// the universal tag of its type.
+func memberMatches(t reflect.Type, params fieldParameters, tal tagAndLen) bool {
+	if params.tagNumber != nil {
+		return tal.class == ClassContextSpecific && *params.tagNumber == tal.tagNumber
+	}
+	if want, ok := universalTag(t, params); ok {
+		return tal.class == ClassUniversal && tal.tagNumber == want
+	}
+	return tal.class == ClassUniversal
 }
 
 // checkIdentifier reports an element whose identifier octets do not fit the
 // type it is decoded into: a tagged element carries its context tag, an
 // untagged one the universal tag of its type. The alternatives of an untagged
-// CHOICE and the "Value"/"List" wrappers are checked where they are decoded.
+// CHOICE are checked where they are decoded.
 func checkIdentifier(v reflect.Value, params fieldParameters, tal tagAndLen) error {
 	if params.tagNumber != nil {
 		if tal.class != ClassContextSpecific || tal.tagNumber != *params.tagNumber {
@@ -132,47 +185,7 @@ func checkIdentifier(v reflect.Value, params fieldParameters, tal tagAndLen) err
 		}
 		return nil
 	}
-	var want uint64
-	switch v.Type() {
-	case BitStringType:
-		want = TagBitString
-	case OctetStringType:
-		want = TagOctetString
-	case EnumeratedType:
-		want = TagEnumerated
-	case NullType:
-		want = TagNull
-	case ObjectIdentifierType:
-		return nil
-	default:
-		switch v.Kind() {
-		case reflect.Bool:
-			want = TagBoolean
-		case reflect.Int, reflect.Int32, reflect.Int64:
-			want = TagInteger
-		case reflect.String:
-			want = uint64(params.stringType)
-		case reflect.Struct:
-			if v.NumField() > 0 {
-				switch v.Type().Field(0).Name {
-				case "Value", "List", "Present":
-					return nil
-				}
-			}
-			want = TagSequence
-			if params.set {
-				want = TagSet
-			}
-		case reflect.Slice:
-			want = TagSequence
-			if params.set {
-				want = TagSet
-			}
-		default:
-			return nil
-		}
-	}
-	if tal.class != ClassUniversal || tal.tagNumber != want {
+	if want, ok := universalTag(v.Type(), params); ok && (tal.class != ClassUniversal || tal.tagNumber != want) {
 		return fmt.Errorf("type mismatch: expected universal tag %d, got class %d tag %d",
 			want, tal.class, tal.tagNumber)
 	}
@@ -359,7 +372,7 @@ func ParseField(v reflect.Value, bytes []byte, params fieldParameters) error {
 					if params.openType {
 						return fmt.Errorf("OpenType is not implemented")
 					}
-					if memberMatches(structParams[current], talNow) {
+					if memberMatches(structType.Field(current).Type, structParams[current], talNow) {
 						if err = ParseField(val.Field(current), bytes[offset:next], structParams[current]); err != nil {
 							return err
 						}
@@ -389,7 +402,7 @@ func ParseField(v reflect.Value, bytes []byte, params fieldParameters) error {
 					if params.openType {
 						return fmt.Errorf("OpenType is not implemented")
 					}
-					if memberMatches(structParams[current], talNow) {
+					if memberMatches(structType.Field(current).Type, structParams[current], talNow) {
 						if parse_err1 := ParseField(val.Field(current), bytes[offset:next], structParams[current]); parse_err1 != nil {
 							return parse_err1
 						}
